@@ -95,9 +95,14 @@ impl StorageImpl {
     pub(crate) fn read(&self, offset: usize, dest: &mut [u8]) {
         match self {
             StorageImpl::Mmap(mmap) => {
-                debug_assert!(offset + dest.len() <= mmap.len());
-                let src = &mmap[offset..offset + dest.len()];
-                dest.copy_from_slice(src);
+                // A damaged cursor or length field can place a read past the end of the file.
+                // Like a positional read past EOF on the FD backend, the missing part reads as
+                // zeros (which no caller accepts as an entry) instead of panicking.
+                let end = offset.saturating_add(dest.len()).min(mmap.len());
+                let start = offset.min(end);
+                let n = end - start;
+                dest[..n].copy_from_slice(&mmap[start..end]);
+                dest[n..].fill(0);
             }
             StorageImpl::Fd(fd) => fd.read(offset, dest),
         }
